@@ -430,3 +430,94 @@ class LintFileWorker:
     def ensures_a_failed_worker_reports_nothing(result, caught):
         # code-derived: any OTHER exception in the worker is logged and swallowed; the file then contributes []
         return implies(len(caught) > 0, len(result) == 0)
+
+
+# ------------------------------------------------------------------------------------------ bounded native check of the pool
+_DIFFERENTIAL = r'''
+import json, os, sys, tempfile, shutil, logging
+sys.path.insert(0, os.environ["VERIF_REPO"])
+logging.disable(logging.CRITICAL)
+from pathlib import Path
+from src.orchestrator.core import Orchestrator
+
+def make_file(root, i):
+    # every file is different (no cross-file duplicates: C07-parallel-cross-file is a separate, known finding) and has
+    # its own number of per-file findings (magic numbers, deep nesting)
+    lines = [f"def handler_{i}_{j}(value_{i}):\n    return value_{i} * {1000 + 37 * i + j} + {7000 + 11 * i + j}\n\n" for j in range(i % 3 + 1)]
+    if i % 4 == 1:
+        lines.append(f"def deep_{i}(a):\n    if a:\n        for b in a:\n            if b:\n                while b:\n                    if b > {i + 2}:\n                        return b\n    return a\n")
+    p = root / f"mod_{i:02d}.py"
+    p.write_text("".join(lines), encoding="utf-8")
+    return p
+
+def orchestrator(root, cfg):
+    # as the CLI does (setup_base_orchestrator / load_config_file): construct, then install the run's configuration
+    o = Orchestrator(project_root=root)
+    o.config = dict(cfg)
+    return o
+
+def key(v):
+    d = v.to_dict()
+    return json.dumps(d, sort_keys=True, default=str)
+
+cases, bad = [], []
+tmp = Path(tempfile.mkdtemp(prefix="c07pool_"))
+try:
+    (tmp / ".git").mkdir()
+    (tmp / ".thailint.yaml").write_text("nesting:\n  max_nesting_depth: 2\n", encoding="utf-8")
+    files = [make_file(tmp, i) for i in range(12)]
+    configs = [{}, {"magic-numbers": {"enabled": True, "allowed_numbers": [0, 1]}, "nesting": {"max_nesting_depth": 3}}]
+    n_case = 0
+    for workers in (1, 2, 3):
+        for n in range(max(1, 2 * workers - 1), 3 * workers + 2):
+            cfg = configs[n_case % 2]
+            n_case += 1
+            fs = files[:n]
+            seq = sorted(key(v) for v in orchestrator(tmp, cfg).lint_files(list(fs))
+                         if not v.rule_id.startswith(("dry.", "stringly-typed")))
+            par = sorted(key(v) for v in orchestrator(tmp, cfg).lint_files_parallel(list(fs), max_workers=workers)
+                         if not v.rule_id.startswith(("dry.", "stringly-typed")))
+            cases.append([workers, n, len(seq)])
+            if seq != par:
+                bad.append({"workers": workers, "files": n, "config": cfg, "sequential": len(seq), "parallel": len(par),
+                            "only_sequential": [json.loads(x)["file_path"] + ":" + json.loads(x)["rule_id"] for x in seq if x not in par][:5],
+                            "only_parallel": [json.loads(x)["file_path"] + ":" + json.loads(x)["rule_id"] for x in par if x not in seq][:5]})
+finally:
+    shutil.rmtree(tmp, ignore_errors=True)
+print("RESULT=" + json.dumps({"cases": cases, "bad": bad}))
+'''
+
+
+@custom("c07-pool-equals-sequential-bounded", props=["C07"])
+def c07_pool_bounded(ctx):
+    """BOUNDED NATIVE CHECK (not a proof; listed under `bounded` in the evidence). The process pool itself
+    (_execute_parallel_linting: ProcessPoolExecutor, submit, pickling) is outside the verified subset and its contract is
+    assumed; this check runs the REAL Orchestrator.lint_files_parallel against lint_files on a generated project
+    (12 distinct Python files with per-file findings, a project-level .thailint.yaml, an empty and a non-empty explicit
+    configuration) for workers 1..3 and every file count from just below the sequential-fallback threshold (2 x workers)
+    to past 3 x workers -- multiples and non-multiples of the worker count -- and compares the multisets of violations
+    (every field). Cross-file rules are excluded (known finding C07-parallel-cross-file)."""
+    import json
+    import os
+    import subprocess
+    import sys
+    import time
+    t0 = time.time()
+    p = subprocess.run([sys.executable, "-c", _DIFFERENTIAL], capture_output=True, text=True, timeout=900,
+                       env=dict(os.environ, VERIF_REPO=ctx["repo"], PYTHONWARNINGS="ignore"), cwd="/tmp")
+    res = None
+    for line in p.stdout.splitlines():
+        if line.startswith("RESULT="):
+            res = json.loads(line[7:])
+    name = "c07-pool-equals-sequential-bounded"
+    if res is None:
+        # the real entry points could not even be driven (signature / protocol of the pool changed, crash): the claim
+        # "parallel == sequential" cannot be observed any more -- refuted, with the error as witness
+        return [{"name": name, "kind": "bounded", "verdict": "refuted", "tool": "cpython differential", "budget": "-", "cases": 0,
+                 "note": "the differential run failed: " + (p.stderr or p.stdout)[-600:], "witness_confirmed": True,
+                 "model_inputs": {"stderr": (p.stderr or "")[-1500:]}, "ms": round((time.time() - t0) * 1000)}]
+    bad = res["bad"]
+    return [{"name": name, "kind": "bounded", "verdict": "passed" if not bad else "refuted", "tool": "cpython differential",
+             "budget": "workers 1..3 x file counts 2w-1 .. 3w+1, 2 configurations", "cases": len(res["cases"]),
+             "note": "" if not bad else f"parallel != sequential: {bad[:2]}", "witness_confirmed": bool(bad),
+             "model_inputs": {"disagreements": bad} if bad else None, "ms": round((time.time() - t0) * 1000)}]
